@@ -142,7 +142,10 @@ struct El {
     if (Cat == 2 && this != &o) G().tick("move-assign");
     ++G().nMoveA;
     if (this == &o) {
+      // reported, and the value is lost as it is for real types (a libstdc++ std::string is left empty, a vector that steals
+      // the buffer of its source then resets the source is left empty): the element sequence shows it too
       G().err("self-move-assign");
+      v = kMoved;
       return *this;
     }
     v = o.v;
